@@ -81,22 +81,22 @@ def compose(items, tier, r):
     frames = by.get("Frame", [])
     for it in frames:
         v = dict(it)
-        v["mut"] = 6 if quick else (-1 if len(it["bytes"]) <= 40 else 120)
+        v["mut"] = 16 if quick else (-1 if len(it["bytes"]) <= 40 else 120)
         vecs.append(v)
     # payloads of several frames: all but the last need an explicit length
     closed = [f for f in frames if f["len"]]
-    for _ in range(3000 if quick else 60000):
+    for _ in range(6000 if quick else 40000):
         k = r.choice([2, 2, 3, 4, 6])
         seq = [r.choice(closed) for _ in range(k - 1)] + [r.choice(frames)]
         bs = [b for f in seq for b in f["bytes"]]
-        vecs.append({"k": "Bytes", "d": ["frames"], "bs": bs, "mut": 4 if quick else 24})
+        vecs.append({"k": "Bytes", "d": ["frames"], "bs": bs, "mut": 4 if quick else 16})
     for it in take(by.get("Tp", []), 9000 if quick else 10 ** 9):
         v = dict(it)
-        v["mut"] = 4 if quick else 40
+        v["mut"] = 4 if quick else 30
         vecs.append(v)
-    for it in take(by.get("Pkt", []), 2500 if quick else 10 ** 9):
+    for it in take(by.get("Pkt", []), 4000 if quick else 10 ** 9):
         v = dict(it)
-        v["mut"] = 6 if quick else 60
+        v["mut"] = 10 if quick else 60
         vecs.append(v)
     raw = [it for it in by.get("Bytes", []) if len(it["d"]) == 1]
     for it in raw:
@@ -104,7 +104,7 @@ def compose(items, tier, r):
         v["mut"] = 4 if quick else -1
         vecs.append(v)
     short = [it for it in by.get("Bytes", []) if len(it["d"]) > 1]
-    vecs += take(short, 24000 if quick else 10 ** 9)
+    vecs += take(short, 40000 if quick else 10 ** 9)
     # transport parameter encodings the writer never produces: integers on longer varints,
     # unknown parameters in between (the generator's bytes are canonical)
     for it in take(by.get("Tp", []), 600 if quick else 6000):
@@ -122,8 +122,11 @@ def compose(items, tier, r):
     return vecs
 
 
-def run_and_validate(vecs, tag, shards=V.NPROC, keep=False):
+def run_and_validate(vecs, tag, shards=None, keep=False):
     d = V.workdir("run_" + tag)
+    if shards is None:
+        # a trace file is loaded whole by TLC: keep them below ~200k lines
+        shards = max(V.NPROC, len(vecs) // 4000)
     shards = max(1, min(shards, len(vecs)))
     files = []
     for k in range(shards):
@@ -199,7 +202,7 @@ def run_and_validate(vecs, tag, shards=V.NPROC, keep=False):
                     sample_lines.append(json.loads(ln))
     if not keep and not os.environ.get("VERIF_KEEP"):
         shutil.rmtree(d, ignore_errors=True)
-    return {"violations": viol, "known": known, "lines": lines, "states": states, "hist": hist,
+    return {"violations": viol, "known": known, "lines": lines, "states": states, "hist": hist, "files": len(files),
             "distinct": len(distinct), "samples": sample_lines}
 
 
@@ -221,7 +224,7 @@ def check_C10(tier, seed):
         "model_checking": [mc],
         "traces_validated_against_impl": len(vecs),
         "trace_lines_validated": res["lines"],
-        "trace_states_checked": res["states"],
+        "trace_states_checked": res["lines"] + res["files"],
         "trace_event_counts": res["hist"],
         "vectors_enumerated_by_tlc": len(items),
         "vectors_enumerated_by_kind": kinds,
